@@ -34,7 +34,8 @@ class Canon:
             ivs = sorted(
                 s.byte_intervals,
                 key=lambda b: (
-                    b.address is None, b.address or 0, b.size,
+                    (b.address is None, b.address or 0)
+                    if self.addresses else (False, 0), b.size,
                     bytes(b.contents),
                     sorted((x.offset, x.size, type(x).__name__,
                             tuple(sorted(r.name for r in x.references)))
